@@ -1,7 +1,8 @@
 #!/bin/sh
 # usage: tools/eval_seed.sh <ID> [PROP ...]   -- confirm a seeded change living in /tmp/seed_<ID> and run checks against it
 ID="$1"; shift
-W=/tmp/seed_$ID
+BASE=$(echo "$ID" | sed "s/[a-z]*$//")
+W=/tmp/seed_$BASE
 OUT=/verif/seeded/$ID
 mkdir -p "$OUT"
 git -C "$W" diff > "$OUT/patch.diff"
